@@ -278,6 +278,12 @@ BATCH_CASES = [
     ('getitem', lambda b: b['p'], False),
     ('chain: apply then sum', lambda b: b.apply(b_double).sum(), False),
     ('chain: iloc then apply', lambda b: b.iloc[:, :1].apply(b_double), False),
+    ('chain: sum then mul', lambda b: b.sum() * 2, False),
+    ('chain: getitem-list then max', lambda b: b[['q', 'p']].max(), False),
+    ('mul', lambda b: b * 2, False),
+    ('head', lambda b: b.head(1), False),
+    ('loc-row', lambda b: b.loc['a'], False),
+    ('sort_values', lambda b: b.sort_values('q', ascending=False), False),
     ('apply failing', lambda b: b.apply(b_fail_second), True),
     ('apply_except', lambda b: b.apply_except(b_fail_second, ValueError), False),
     ('apply_except other exception type', lambda b: b.apply_except(b_fail_second, KeyError), True),
@@ -291,10 +297,14 @@ def run_batch(case, ctx):
     name, fn, must_raise = BATCH_CASES[op]
 
     def run(workers, chunk, threads, n):
-        b = sf.Batch.from_frames(b_frames(n), max_workers=workers, chunksize=chunk, use_threads=threads)
+        if n < 0:
+            # Batch labels that are not the names of the Frames (as when a Batch is built from group items): results are labelled by the Batch label
+            b = sf.Batch(((f'L{i}', f) for i, f in enumerate(b_frames(-n))), max_workers=workers, chunksize=chunk, use_threads=threads)
+        else:
+            b = sf.Batch.from_frames(b_frames(n), max_workers=workers, chunksize=chunk, use_threads=threads)
         r = fn(b)
         return tuple((k, snap(v)) for k, v in r.items())
-    for n in (3, 4) if tier != 'quick' else (3,):
+    for n in (3, -3, 4) if tier != 'quick' else (3, -3):
         seq = outcome(lambda: run(None, 1, False, n))
         if must_raise and seq[0] != 'raises':
             ctx.violation(f'batch|{name}|sequential-does-not-raise', got=repr(seq)[:300])
